@@ -40,6 +40,7 @@ type c10Case struct {
 	PreW    string `json:"pre_world,omitempty"`
 	PostW   string `json:"post_world,omitempty"`
 	Disc    []int  `json:"discarded,omitempty"`
+	Res     *vRes  `json:"result,omitempty"`
 	Diffs   []string `json:"diffs,omitempty"`
 }
 
@@ -158,6 +159,8 @@ func c10Triggers(kind string) []string {
 	return nil
 }
 
+const c10InjectedErr = "cannot perform the following tasks:\n- injected failure (error out)"
+
 type c10Runner struct {
 	r        *eng.Run
 	c        *C
@@ -238,6 +241,14 @@ func (cr *c10Runner) checkState(st vState, onlyOp int) {
 			rebuild()
 			return res, false
 		}
+		if op.F > 0 && res.Status == "Error" && strings.TrimSpace(res.ChgErr) != c10InjectedErr {
+			// some task other than the spliced one failed (seen only on an overloaded machine): the case did not
+			// test what it was meant to; it is recorded, not judged
+			r.Add("cases_with_unexpected_task_errors", 1)
+			r.Cap("unexpected_task_error", map[string]interface{}{"history": st.Path, "op": op, "error": res.ChgErr, "tasks": res.Kinds, "final": res.Final})
+			rebuild()
+			return res, false
+		}
 		r.Add("evaluations", 1)
 		r.Add("transitions", 1)
 		r.Add("traces_validated_against_impl", 1)
@@ -281,7 +292,7 @@ func (cr *c10Runner) checkState(st vState, onlyOp int) {
 				return res, false
 			}
 			// re-run on fresh fixtures before believing it: first the minimal history, then the actual one
-			cas := c10Case{Path: st.Path, Op: op, Minimal: true, Pre: &pre, Post: &post, PreW: eng.JSON(preW), PostW: eng.JSON(postW), Disc: res.Disc}
+			cas := c10Case{Path: st.Path, Op: op, Minimal: true, Pre: &pre, Post: &post, PreW: eng.JSON(preW), PostW: eng.JSON(postW), Disc: res.Disc, Res: &res}
 			for _, d := range diffs {
 				cas.Diffs = append(cas.Diffs, d.Text)
 			}
